@@ -90,7 +90,7 @@ def confirm(v):
     return Fraction(ri) * Fraction(10) ** (-rs) != Fraction(f), out
 
 
-def validate(prog, rng, n):
+def validate(prog, rng, n, rep=None):
     cases = []
     for i in range(n):
         ty = rng.choice(['f32', 'f64'])
@@ -105,6 +105,20 @@ def validate(prog, rng, n):
     outs = H.replay_lines(lines)
     mism = []
     for (ty, sg, e, fr), nat in zip(cases, outs):
+        if rep is not None:
+            ebits, mbits = FMT[ty][:2]
+            b = (sg << (ebits + mbits)) | (e << mbits) | fr
+            f = struct.unpack(FMT[ty][2], struct.pack(FMT[ty][3], b))[0]
+            if f != f or f in (float('inf'), float('-inf')):
+                bad = nat != 'Err'
+            else:
+                bad = nat == 'Err' or nat.startswith('PANIC')
+                if not bad:
+                    ri, rs = H.parse_dec(nat)
+                    bad = Fraction(ri) * Fraction(10) ** (-rs) != Fraction(f)
+            if bad:
+                H.probe_violation(rep, PROP, 'native conversion of %s bits 0x%x gives %s' % (ty, b, nat), {'ty': ty, 'exp': e, 'entry': 'try_from'}, {'sign': sg, 'frac': fr}, nat)
+                continue
         m = E.Machine(prog, (), [], E.Stats(), loop_bound=3000)
         try:
             r = m.call('<BigDecimal as TryFrom<%s>>::try_from' % ty, [S.FloatV(ty, sg, e, fr)], [ty], 'Result')
@@ -142,7 +156,7 @@ def main(tier):
     rep.outside = ['decimal -> f64 direction (to_f64 round trip and error bounds): depends on correctly rounded str::parse::<f64>/powi, no linear encoding (DESIGN section 5/C14)',
                    'f64 exponent fields not listed in the quick tier']
     sys.stderr.write('[C14] %d tasks\n' % len(tasks))
-    rep.validated, rep.validation_mismatches = validate(prog, rng, 300 if tier == 'quick' else 3000)
+    rep.validated, rep.validation_mismatches = validate(prog, rng, 300 if tier == 'quick' else 3000, rep)
     results = H.run_parallel(tasks, worker, progress=200)
     rep.add(results)
     for r in results:
